@@ -160,6 +160,12 @@ def generate(module, cfg, workdir, out_name='cases.ndjson', env=None, **kw):
             module, cfg, res.exit, '; '.join(res.errors[:3]), res.output[-3000:]))
     if not out.exists():
         raise MachineryError('generation %s/%s wrote nothing' % (module, cfg))
+    # TLC's workers append in a nondeterministic order: sort the lines so that the replay (and every
+    # seeded choice made while iterating) is reproducible for a given VERIF_SEED
+    e = dict(os.environ, LC_ALL='C')
+    p = subprocess.run(['sort', '-o', str(out), str(out)], env=e)
+    if p.returncode != 0:
+        raise MachineryError('sorting %s failed' % out)
     n = 0
     with open(out, 'rb') as f:
         for _ in f:
